@@ -41,7 +41,7 @@ C18; here the buffered receiver is an opaque stub (class Receiver) whose
 """
 from __future__ import annotations
 
-from pyvc.core import And, ExcVal, Iff, Implies, Ite, Len, Not, Or, PyRaise, SStr, Unreached
+from pyvc.core import And, ExcVal, Implies, Ite, Len, Not, Or, PyRaise, SStr, Unreached
 from pyvc.harness import Ready, harness, stubclass
 
 PROP = 'C17'
@@ -588,11 +588,12 @@ def ws_close(v):
     v.check('exactly-one-send-attempt', s.attempts == 1)
     if e.send.fate == 0:
         v.check('returns-none', out.exc is None and out.value is None)
-        eff_reason = reason if (rk == 1 and Len(reason) > 0) else (e.reasons.result if e.reasons.queried else None)
         if rk == 1 and Len(reason) > 0:
-            pass
+            eff_reason = reason  # a reason was provided
         else:
+            # "if there is no reason provided, Falcon will try to look it up from the code and default_close_reasons"
             v.check('default-reason-looked-up-by-code', len(e.reasons.queried) == 1 and same(e.reasons.queried[0], eff))
+            eff_reason = e.reasons.result if e.reasons.queried else None
         want_reason = eff_reason is not None and Len(eff_reason) > 0 and e.supports_reason
         if want_reason:
             v.check('sends-exactly-one-close-event-with-code-and-reason', len(s.sent) == 1 and event_is(s.sent[0], type='websocket.close', code=eff, reason=eff_reason))
@@ -604,7 +605,7 @@ def ws_close(v):
         v.check('invariant', inv(e))
     else:
         v.check('nothing-counted-as-sent', len(s.sent) == 0)
-        v.check('server-error-propagates', out.exc is not None)
+        v.check('server-error-propagates', is_exc(out, s.lost_error))
         if e.send.fate in LOST_FATES:
             # the server said the connection is gone: the socket must not stay usable (see session-legal:no-send-attempt-after-...)
             v.check('lost-connection-during-close-leaves-a-consistent-state', inv(e))
@@ -1361,6 +1362,117 @@ def handshake_abandoned(v):
         v.check('server-error-propagates', is_exc(out, s.lost_error))
 
 
-ASSUMPTIONS = []
-NOT_DECIDED = []
-TRUSTED = []
+# ---------------------------------------------------------------------------
+# kill matrix (file, old text occurring exactly once, new text, expected obligation substring)
+
+_WS = 'falcon/asgi/ws.py'
+_APP = 'falcon/asgi/app.py'
+
+KILLS = [
+    # close() no longer idempotent: a second websocket.close goes out on a closed socket
+    (_WS, "        if self.closed:\n            return\n\n        response = ", "        response = ", 'WebSocket.close#session-legal:nothing-after-close'),
+    # state guard of accept() removed
+    (_WS, "        if self._state != _WebSocketState.HANDSHAKE:\n            raise errors.OperationNotAllowed(\n                'accept() may only be called once",
+     "        if False:\n            raise errors.OperationNotAllowed(\n                'accept() may only be called once", 'WebSocket.accept#session-legal:accept-only-once-while-connecting'),
+    # _state set BEFORE the send succeeds (accept / close)
+    (_WS, "        await self._send(event)\n        self._state = _WebSocketState.ACCEPTED\n", "        self._state = _WebSocketState.ACCEPTED\n        await self._send(event)\n",
+     'WebSocket.accept#accept:other-server-errors-leave-the-state-alone'),
+    (_WS, "        await self._asgi_send(response)\n\n        self._state = _WebSocketState.CLOSED\n", "        self._state = _WebSocketState.CLOSED\n        await self._asgi_send(response)\n\n",
+     'WebSocket.close#invariant'),
+    # close-code range boundaries off by one
+    (_WS, "        elif 1015 <= code <= 1999 or 1004 <= code <= 1006:", "        elif 1016 <= code <= 1999 or 1004 <= code <= 1006:", 'WebSocket.close#invalid-code-raises-ValueError'),
+    (_WS, "        elif code < 1000:\n", "        elif code <= 1000:\n", 'WebSocket.close#idempotent-on-closed-socket'),
+    # 3000 + status mapping changed (seen by the function contract and end to end)
+    (_WS, "    return http_status + 3000\n", "    return http_status + 4000\n", 'http_status_to_ws_code#close-code-is-3000-plus-status'),
+    (_WS, "    return http_status + 3000\n", "    return 3000 + http_status + 1\n", '_handle_websocket#unrouted-path-closes-with-3404'),
+    # the final close() after a normal responder return dropped
+    (_APP, "            await on_websocket(req, web_socket, **params)\n            await web_socket.close()\n", "            await on_websocket(req, web_socket, **params)\n",
+     '_handle_websocket#a-close-is-attempted'),
+    # payload type check removed
+    (_WS, "        if not isinstance(payload, str):\n            raise TypeError('payload must be a string')\n", "", 'WebSocket.send_text#wrong-payload-type-raises-TypeError'),
+    # "not yet accepted" guard removed
+    (_WS, "        if self._state == _WebSocketState.HANDSHAKE:\n            raise errors.OperationNotAllowed(\n                'WebSocket connection has not yet been accepted'\n            )\n        elif self._state",
+     "        if self._state", 'WebSocket.send_text#session-legal:data-only-between-accept-and-close'),
+    # fallback close code
+    (_APP, "_FALLBACK_WS_ERROR_CODE = 3011\n", "_FALLBACK_WS_ERROR_CODE = 1011\n", '_handle_websocket#unexpected-error-closes-with-error_close_code-or-3011-when-that-is-invalid'),
+    # reason sent to servers that do not support it
+    (_WS, "        if reason and self._supports_reason:  # pragma: no py311 cover", "        if reason:  # pragma: no py311 cover",
+     'WebSocket.close#sends-exactly-one-close-event-with-code-and-no-reason'),
+    # abandoned handshake answered with the wrong code
+    (_APP, "            response = {'type': EventType.WS_CLOSE, 'code': WSCloseCode.SERVER_ERROR}\n", "            response = {'type': EventType.WS_CLOSE, 'code': WSCloseCode.NORMAL}\n",
+     '_handle_websocket#one-close-1011'),
+    # a client disconnect no longer closes the socket (receive side / send side)
+    (_WS, "            assert event_type == EventType.WS_DISCONNECT\n\n            self._state = _WebSocketState.CLOSED\n", "            assert event_type == EventType.WS_DISCONNECT\n\n",
+     'WebSocket.receive_text#disconnect-closes-the-socket-with-the-client-code'),
+    (_WS, "        if self._buffered_receiver.client_disconnected:\n            self._state = _WebSocketState.CLOSED\n            self._close_code = self._buffered_receiver.client_disconnected_code\n", "",
+     'WebSocket.send_data#session-legal:nothing-after-client-disconnect-was-delivered'),
+    # payload altered on the way out
+    (_WS, "                'bytes': bytes(payload),\n", "                'bytes': bytes(payload[:-1]),\n", 'WebSocket.send_data#payload-forwarded-unchanged-in-one-send-event'),
+    # spec-version predicate inverted
+    (_WS, "        self._supports_accept_headers = ver != '2.0'\n", "        self._supports_accept_headers = ver == '2.0'\n", 'WebSocket.__init__#accept-headers-supported-from-spec-2.1'),
+]
+HARMLESS = [
+    # two independent statements reordered
+    (_WS, "        self._state = _WebSocketState.CLOSED\n        self._close_code = code\n", "        self._close_code = code\n        self._state = _WebSocketState.CLOSED\n"),
+    # a local renamed
+    (_WS, "        response = {'type': EventType.WS_CLOSE, 'code': code}\n\n        reason = reason or self._close_reasons.get(code)\n        if reason and self._supports_reason:  # pragma: no py311 cover\n"
+          "            # NOTE(vytas): I have verified that the below line is covered both\n            #   by multiple unit tests and E2E tests.\n"
+          "            #   However, it is erroneously reported as missing on CPython 3.11.\n            response['reason'] = reason\n\n        await self._asgi_send(response)\n",
+     "        close_event = {'type': EventType.WS_CLOSE, 'code': code}\n\n        reason = reason or self._close_reasons.get(code)\n        if reason and self._supports_reason:\n"
+     "            close_event['reason'] = reason\n\n        await self._asgi_send(close_event)\n"),
+    # an intermediate variable introduced
+    (_APP, "            code = http_status_to_ws_code(error.status_code)\n", "            status_code = error.status_code\n            code = http_status_to_ws_code(status_code)\n"),
+]
+
+# Obligations refuted on the unchanged tree; each counter-model replays on the real code (see the final report / known_findings.json).
+FINDINGS = [
+    {
+        'obligation': 'falcon.asgi.ws:WebSocket.close#lost-connection-during-close-leaves-a-consistent-state',
+        'what': 'close() sends through _asgi_send directly, not through _send: when the server reports the connection lost (OSError) the raw error escapes and '
+                '_state stays ACCEPTED/HANDSHAKE (closed == False, ready == True), so later operations hand further events to a connection known to be lost',
+    },
+    {
+        'obligation': 'falcon.asgi.app:App._handle_websocket#session-legal:no-send-attempt-after-the-server-reported-the-connection-lost',
+        'path_labels': ['send-fate=1'],
+        'what': 'same root cause at app level: responder returns, final close(1000) raises OSError (connection lost), the error goes to _python_error_handler -> '
+                '_ws_cleanup_on_error -> a second websocket.close(1011) is handed to the lost connection and the OSError escapes to the server',
+    },
+    {
+        'obligation': 'falcon.asgi.app:App._handle_websocket#close-sent-when-a-custom-handler-leaves-the-socket-open',
+        'what': 'a custom error handler that returns (or raises something other than HTTPError/HTTPStatus) without closing: _handle_websocket returns and no close/denial is ever sent '
+                'although the responder failed without closing and the client is still connected',
+    },
+]
+
+ASSUMPTIONS = [
+    'ASGI server, send: either takes the event and returns, or raises; what it raises is one of: OSError (spec 2.4 "send on a closed connection"), OSError chained from a '
+    '"received NNNN ..." websockets error, an error whose text contains "code = 1000 (OK)", autobahn\'s "protocol accepted must be from the list", or any other exception '
+    '(propagated unchanged); the first four mean the connection is gone (monitor LOST)',
+    'classification of server errors by message text is checked on these representative messages only (regular expressions over arbitrary text are out of reach)',
+    'ASGI server, receive (after the handshake): websocket.receive with text/bytes each missing, None or a payload (all nine shapes), or websocket.disconnect with or without code; '
+    'no other event type (the code asserts this)',
+    'responders, WebSocket middleware methods and custom error handlers use the socket sequentially and only through its public API; they are summarised by "leave the socket in an '
+    'arbitrary state satisfying the typestate invariant" -- justified by the per-operation contracts, except for close() on a connection the server reports lost (FINDINGS[0])',
+    'HTTPError.status_code / HTTPStatus.status_code is the integer code of .status, between 100 and 599 (C05); ws_options.error_close_code is an int',
+    'the receive pump changes client_disconnected only at await points while it runs and not after _BufferedReceiver.stop() returned; stop() returns normally (C18)',
+    'media handler serialize/deserialize functions are opaque total functions (C12)',
+]
+NOT_DECIDED = [
+    'App.__call__: dispatch of scope type "websocket" (and of the spec version string) to _handle_websocket -- read, not proved',
+    '_BufferedReceiver (pump, queue, waiters, receive ordering in buffered mode): property C18; here an opaque stub',
+    'asyncio cancellation / BaseException during a conversation (not caught by "except Exception": no close is sent) -- outside the quantifier of the statement',
+    'accept(headers=...): only concrete header collections (list of pairs, dict, empty, with sec-websocket-protocol); encoding of arbitrary (non-ASCII) names/values not modelled',
+    '_translate_webserver_error on arbitrary exception texts (regex over symbolic strings)',
+    'custom error handlers registered for HTTPError / HTTPStatus / Exception / WebSocketDisconnected themselves (replacing the defaults), more than one middleware component, '
+    'sinks or static routes matching the WebSocket path (_sink_and_static_routes is empty here)',
+    'routing itself (_router_search is opaque: C01/C02); set_default_responders is executed for real on the method maps {GET} and {GET, WEBSOCKET}',
+    'falcon.testing ASGIWebSocketSimulator / ASGIConductor (the test-side peer) are not part of the contracts',
+    'liveness ("a close is eventually sent") only as: on every path out of _handle_websocket with the socket open the close was handed to send',
+]
+TRUSTED = [
+    'session monitor and server stubs Send / Receive / AppReceive / Receiver in contracts/C17_websocket.py',
+    'participant summary World.havoc + Participant / ErrorHandler (rely: typestate invariant), Router, ReqFactory, Req, WsOptions, Reasons, Codec, MediaHandler stubs',
+    'models registered in _setup*: bytes(b) == b for bytes, logging.Logger.error/warning/debug are no-ops, asyncio.get_running_loop() returns an opaque loop, '
+    'falcon.util.misc.get_argnames read off the AST signature; WebSocketDisconnected.__init__ is executed from source on symbolic arguments',
+    'pyvc/interp.py to_str: str(exception) = text of the real exception object (BaseException.__str__ for args-only values)',
+]
